@@ -140,6 +140,24 @@ class Tracker:
                 i = a % (len(model) + 1)
                 return S(F["nth"](v, i, "nf"), (model[i] if i < len(model) else "nf")) and S(F["peek"](v), (model[-1] if model else None))
             return S(F["peek"](v), (model[0] if model else None))
+        if op == 8:      # variadic forms: several keys / elements in one call (every order of present and absent keys)
+            k1, k2 = KEY(a), KEY(a + 1 + b)
+            if kind == "set":
+                m2 = set(x for x in model if not (x == k1 or x == k2))
+                t = F["disj!"](F["transient"](v), k1, k2)
+                if not self.matches(F["persistent!"](t), m2):
+                    return False
+                return self.derived(F["disj"](v, k1, k2), m2)
+            if kind == "map":
+                m2 = {k: x for k, x in model.items() if not (k == k1 or k == k2)}
+                t = F["dissoc!"](F["transient"](v), k1, k2)
+                if not self.matches(F["persistent!"](t), m2):
+                    return False
+                self.derived(F["assoc"](v, k1, V(b), k2, V(b + 1)), {**model, k1: V(b), k2: V(b + 1)})
+                return self.derived(F["dissoc"](v, k1, k2), m2)
+            if kind == "list":
+                return self.derived(F["conj"](v, V(b), V(b + 1)), [V(b + 1), V(b)] + list(model))
+            return self.derived(F["conj"](v, V(b), V(b + 1)), list(model) + [V(b), V(b + 1)])
         if op == 7:      # empty
             e = F["empty"](v)
             return self.derived(e, type(model)() if not isinstance(model, list) else [])
@@ -151,7 +169,7 @@ def DIAG(**k):
 
 def spec(kind, seed, nops, timeout, first_op=None, nkeys=5, nvals=3):
     args = ", ".join(f"o{j}: int, s{j}: int, a{j}: int, b{j}: int" for j in range(nops))
-    pre = [x for j in range(nops) for x in (f"0 <= o{j} < 8", f"0 <= s{j} <= {j}", f"0 <= a{j} < {nkeys}", f"0 <= b{j} < {nvals}")]
+    pre = [x for j in range(nops) for x in (f"0 <= o{j} < 9", f"0 <= s{j} <= {j}", f"0 <= a{j} < {nkeys}", f"0 <= b{j} < {nvals}")]
     if first_op is not None:
         pre[0] = f"o0 == {first_op}"
     ops = ", ".join(f"(o{j}, s{j}, a{j}, b{j})" for j in range(nops))
@@ -185,10 +203,10 @@ def run(rep, tier, seed):
         for sd in seeds:
             if quick:
                 # length 2 on the reduced domain (4 keys incl. nil, values 0/nil) + every single operation on the full domain
-                specs += [spec(kind, sd, nops, to * 2 if kind == "map" else to, first_op=f, nkeys=4, nvals=2) for f in range(8)]
+                specs += [spec(kind, sd, nops, to * 2 if kind == "map" else to, first_op=f, nkeys=4, nvals=2) for f in range(9)]
                 specs += [spec(kind, s1, 1, to) for s1 in ((0, sd) if sd else (0,))]
             else:
-                specs += [spec(kind, sd, nops, to, first_op=f) for f in range(8)]
+                specs += [spec(kind, sd, nops, to, first_op=f) for f in range(9)]
     rep.bounds = {"history length": nops, "seeds": "vector: 34 elements (two trie levels); map: keys 0/32/1024/5 (shared hash bits: interior nodes; 34 entries thorough-only); 3 otherwise; empty seeds in the length-1 family and the thorough tier",
                   "keys": "0, two objects with colliding hashes, a keyword, nil", "values": "0, nil, false"}
     rep.outside = ["the C cores of pyrsistent / immutables are executed, not encoded", "longer histories", "update / nth on maps"]
